@@ -71,6 +71,17 @@ var ResetHooks []func()
 // draws must be a function of the seed: the runtime's map iteration order).
 var SeedHooks []func(seed uint64)
 
+// addName records the name of a task started by the library (harness
+// bookkeeping done by whichever task is current: invisible to the race
+// detector like the rest of the scheduler's state).
+//
+//go:norace
+func addName(w *World, id int, name string) {
+	for len(w.names) <= id {
+		w.names = append(w.names, name)
+	}
+}
+
 // RunOne executes one simulated run.
 func RunOne(seed uint64, explicit []uint64, build Build, wantTrace, wantTape bool) Result {
 	for _, h := range SeedHooks {
@@ -91,6 +102,20 @@ func RunOne(seed uint64, explicit []uint64, build Build, wantTrace, wantTape boo
 	}()
 	n := len(w.fns)
 	var wg sync.WaitGroup
+	// goroutines the library starts itself (go statements, rewritten to
+	// simrt.Go) join the run as additional tasks
+	simrt.SpawnHook = func(id int, fn func()) {
+		name := fmt.Sprintf("go%d", id)
+		addName(w, id, name)
+		wg.Add(1)
+		go func() {
+			defer wg.Done()
+			simrt.TaskEnter(id)
+			defer simrt.TaskExit(id)
+			defer recoverTask(name)
+			fn()
+		}()
+	}
 	simrt.Begin(n)
 	for i := 0; i < n; i++ {
 		wg.Add(1)
